@@ -4,6 +4,7 @@ package httpserver
 
 import (
 	"fmt"
+	"strings"
 	"testing"
 
 	"verif.local/kit"
@@ -14,8 +15,8 @@ import (
 func TestVerif_C01_Router(t *testing.T) {
 	r := kit.Start(t, "C01")
 	defer r.Finish()
-	r.Rule("seeded rule sets (1-4 rules x 1-4 paths over small alphabets: host/hostRegexp, exact/prefix/regexp paths, method lists, header value/regexp matchers with and without matchAllHeader, rewrite targets incl. $n groups, shadowing duplicates, unknown backends) x 40 requests each (host with/without port, absent headers, unlisted methods); every request is served by the real mux.ServeHTTP and by an independent reference router; distinct = (status, decision reason, winning rule/path index, host matcher kind, rewrite mode)")
-	r.Assume("header matchers carry either values or a regexp; request headers are single-valued; an entry may carry several path matchers; its rewritten path is judged when exactly one of them matches the request (when several match, the governing one is left open); no IPv6 literal hosts; no /.well-known/acme-challenge/ paths")
+	r.Rule("seeded rule sets (1-4 rules x 1-4 paths over small alphabets: host/hostRegexp, exact/prefix/regexp paths, method lists, header matchers carrying values, a regexp or both on the same key, with and without matchAllHeader, rewrite targets incl. $n groups, shadowing duplicates, unknown backends) x 40 requests each (host with/without port, absent headers, unlisted methods); every request is served by the real mux.ServeHTTP and by an independent reference router; a run must contain requests whose value satisfies exactly one of the two conditions of a values+regexp matcher in a way that decides the entry, under matchAllHeader and without; distinct = (status, decision reason, winning rule/path index, host matcher kind, rewrite mode, deciding values+regexp matcher)")
+	r.Assume("a header matcher that carries both values and a regexp holds under matchAllHeader iff every configured condition holds (value listed AND regexp matches) and without matchAllHeader iff any does (the reading of \"all\"/\"any\" over the configured conditions, which is also what spec.go/mux.go document and do); request headers are single-valued; an entry may carry several path matchers; its rewritten path is judged when exactly one of them matches the request (when several match, the governing one is left open); no IPv6 literal hosts; no /.well-known/acme-challenge/ paths")
 	nSets := r.N(400, 20000)
 	const reqPerSet = 40
 	missing := map[string]bool{"gone": true}
@@ -44,7 +45,15 @@ func TestVerif_C01_Router(t *testing.T) {
 			}
 			called := mapper.Calls() - before
 			r.Eval(1)
-			r.Cover(fmt.Sprintf("%d/%s/r%d.p%d/%s/%s", want.Out.Status, want.Why, want.Rule, want.PathIdx, want.HostKind, want.Rewrite))
+			r.Cover(fmt.Sprintf("%d/%s/r%d.p%d/%s/%s/both=%s", want.Out.Status, want.Why, want.Rule, want.PathIdx, want.HostKind, want.Rewrite, want.HdrBoth))
+			if want.HdrBoth != "" {
+				// "all", "any" or "all+any": a values+regexp matcher of which the request satisfies
+				// exactly one condition decided an entry consulted for this request
+				for _, mode := range strings.Split(want.HdrBoth, "+") {
+					r.Count("hdr_values_and_regexp_split_decides_matchall_"+map[string]string{"all": "true", "any": "false"}[mode], 1)
+					r.Count(fmt.Sprintf("hdr_values_and_regexp_split_decides_matchall_%s_status_%d", map[string]string{"all": "true", "any": "false"}[mode], want.Out.Status), 1)
+				}
+			}
 			r.Count(fmt.Sprintf("status_%d", want.Out.Status), 1)
 			r.Count("rewrite_"+want.Rewrite, 1)
 			bad := ""
@@ -62,6 +71,15 @@ func TestVerif_C01_Router(t *testing.T) {
 			case want.Out.Status == 200 && called != 1:
 				bad = "handler-call-count"
 			}
+			if bad != "" && want.HdrBoth != "" {
+				// label only: the real router behaves exactly as if values+regexp matchers were
+				// read the other way round (one condition enough under matchAllHeader / both needed
+				// without it)
+				alt := refRouteAs(spec, &q, missing, true)
+				if got.Status == alt.Out.Status && (alt.Out.Status != 200 || (got.Backend == alt.Out.Backend && (alt.Rewrite == "ambiguous" || got.Path == alt.Out.Path))) {
+					bad += ":values+regexp-header-matcher-half-satisfied-read-the-other-way:matchAllHeader=" + map[string]string{"all": "true", "any": "false", "all+any": "both-kinds"}[want.HdrBoth]
+				}
+			}
 			if bad != "" {
 				r.Violation("router-vs-reference:"+bad+":"+want.Why, map[string]interface{}{
 					"spec": spec, "yaml": spec.YAML("verif"), "request": q, "real": got, "reference": want,
@@ -73,7 +91,9 @@ func TestVerif_C01_Router(t *testing.T) {
 		}
 		m.close()
 	}
-	for _, k := range []string{"status_200", "status_400", "status_404", "status_405", "status_503", "rewrite_exact", "rewrite_prefix", "rewrite_regexp", "rewrite_ambiguous"} {
+	for _, k := range []string{"status_200", "status_400", "status_404", "status_405", "status_503", "rewrite_exact", "rewrite_prefix", "rewrite_regexp", "rewrite_ambiguous",
+		"hdr_values_and_regexp_split_decides_matchall_true", "hdr_values_and_regexp_split_decides_matchall_false",
+		"hdr_values_and_regexp_split_decides_matchall_true_status_200", "hdr_values_and_regexp_split_decides_matchall_true_status_400"} {
 		r.Require(k, 1)
 	}
 }
